@@ -654,6 +654,17 @@ class Program:
     def fn(self, path):
         return self.fns.get(path)
 
+    def closure_sites(self, cpath):
+        """Call sites (Fn, block) that receive the closure `cpath` as an argument (after helper inlining the textual owner may be gone)."""
+        if getattr(self, "_closure_sites", None) is None:
+            self._closure_sites = {}
+            for f in self.fns.values():
+                for bl in f.blocks:
+                    if bl.term["k"] == "call":
+                        for c in (bl.term.get("closures") or []):
+                            self._closure_sites.setdefault(c, []).append((f, bl.idx))
+        return self._closure_sites.get(cpath, [])
+
     def find_fns(self, regex):
         r = re.compile(regex)
         return [f for p, f in self.fns.items() if r.search(p)]
